@@ -19,6 +19,7 @@
 EXTENDS SimProps, SimMatch, Json, IOUtils, TLCExt
 STL == INSTANCE Settlement
 EXP == INSTANCE Exposure
+TXC == INSTANCE TxnCount
 
 CONSTANT Props        \* which formula families to evaluate, e.g. {"R", "C03", "C04"}
 
@@ -500,6 +501,79 @@ P_C01(pre, e) ==
                         EXP!SelectionLoss(bs[sk]) <= e.a.limits[sn].maxsel * 100 + (Cardinality(DOMAIN bs[sk]) + 1) * 100,
                         <<sn, mid, sk, EXP!SelectionLoss(bs[sk]), e.a.limits[sn].maxsel>>))
 
+
+-----------------------------------------------------------------------------
+(* C02 request path, on simulation runs with the real controls *)
+BagCount(q, x) == Cardinality({i \in DOMAIN q : q[i] = x})
+P_C02(pre, e) ==
+    e.ev = "cb" =>
+    LET acc == SelectSeq(e.reqs, LAMBDA q : q.r = "ACCEPT")
+        sentPairs == UNION {{<<e.pkgs[i].kind, e.pkgs[i].orders[j]>> : j \in DOMAIN e.pkgs[i].orders} : i \in DOMAIN e.pkgs}
+    IN
+    \* a refused / rejected request leaves order, trade, blotter and runner accounting untouched;
+    \* only a refused NEW order is marked as a violation (and stays out of the blotter)
+    /\ \A i \in DOMAIN e.reqs :
+         LET q == e.reqs[i] IN
+         (q.r \in {"REFUSE", "ERROR"} /\ "before" \in DOMAIN q) =>
+            Ck("C02", "RefusedUnchanged",
+               \/ q.before = q.after
+               \/ ( /\ q.r = "REFUSE" /\ q.before.status \in {"NONE", "VIOLATION"} /\ ~q.before.inbl
+                    /\ q.after.status = "VIOLATION" /\ ~q.after.inbl /\ ~q.after.live
+                    /\ [q.after EXCEPT !.status = q.before.status, !.nlog = q.before.nlog] = q.before ),
+               <<q.kind, q.o, q.r, q.before, q.after>>)
+    \* every accepted request is delivered exactly once, in a package of its kind
+    /\ \A i \in DOMAIN acc :
+         LET q == acc[i]
+             n == Cardinality({k \in DOMAIN acc : acc[k].kind = q.kind /\ acc[k].o = q.o})
+             m == Cardinality({<<a, b>> \in (DOMAIN e.pkgs) \X (1..400) : b \in DOMAIN e.pkgs[a].orders /\ e.pkgs[a].kind = q.kind /\ e.pkgs[a].orders[b] = q.o})
+         IN Ck("C02", "ExactlyOnce", n = m, <<q.kind, q.o, n, m>>)
+    /\ Ck("C02", "NothingUnrequestedSent",
+          \A p \in sentPairs : \E k \in DOMAIN acc : acc[k].kind = p[1] /\ acc[k].o = p[2], sentPairs)
+    \* one market version per package, as requested
+    /\ \A i \in DOMAIN e.pkgs : \A j \in DOMAIN e.pkgs[i].orders :
+         (e.pkgs[i].kind \in {"PLACE", "REPLACE"}) =>
+            Ck("C02", "OneVersionPerPackage",
+               \E k \in DOMAIN acc : acc[k].kind = e.pkgs[i].kind /\ acc[k].o = e.pkgs[i].orders[j] /\ acc[k].mver = e.pkgs[i].mver,
+               <<e.pkgs[i].kind, e.pkgs[i].orders[j], e.pkgs[i].mver>>)
+    \* a forced request skips the controls but not the order's own guards
+    /\ LET RECURSIVE Walk(_, _)
+           Walk(s, qs) == IF qs = <<>> THEN TRUE
+                          ELSE LET q == Head(qs) IN
+                               /\ ((q.force /\ q.r # "NOORDER" /\ q.kind # "PLACE" /\ Has(s.ord, q.o)) =>
+                                     Ck("C02", "ForceSkipsOnlyControls",
+                                        (q.r = "ACCEPT") = GuardOk(s, q), <<q.kind, q.o, q.r>>))
+                               /\ Walk(ReqOne(s, q), Tail(qs))
+       IN Walk(pre, e.reqs)
+
+
+-----------------------------------------------------------------------------
+(* C18 transaction-limit control *)
+P_C18(pre, e) ==
+    LET post == e.st IN
+    \* totals: bets submitted (placement and replacement instructions) plus failed instructions
+    /\ (e.ev = "exec" /\ e.a.err = "" =>
+          Ck("C18", "TotalsExact", Step(pre, e, Oracle(e)).tx = post.tx,
+             <<e.a.kind, e.a.orders, "expected", Step(pre, e, Oracle(e)).tx, "got", post.tx>>))
+    /\ (e.ev # "exec" => Ck("C18", "CountedOnlyByHandlers", pre.tx = post.tx \/ e.ev = "init", <<e.ev>>))
+    \* the control's own view agrees with the totals, hourly = counted since the last restart
+    /\ \A c \in DOMAIN e.txs :
+         /\ (c \in DOMAIN post.tx => Ck("C18", "TotalsConsistent", e.txs[c].tot = post.tx[c].tot /\ e.txs[c].totf = post.tx[c].totf, c))
+         /\ Ck("C18", "HourlyExact", e.txs[c].cur + e.txs[c].curf = e.txs[c].tot + e.txs[c].totf - e.txs[c].base, <<c, e.txs[c]>>)
+    \* every request that reaches the control: hour check, then refused iff over the limit
+    /\ \A i \in DOMAIN e.txcalls :
+         LET k == e.txcalls[i]
+             r == TXC!Check([cur |-> k.cur, curf |-> k.curf, tot |-> 0, totf |-> 0, nexthour |-> k.nexthour], k.now, k.limit)
+         IN /\ Ck("C18", "BlockedIffOver", k.accepted = r[2], <<k>>)
+            /\ Ck("C18", "ResetOnFirstRequestOfNewHour",
+                  k.cur2 = r[1].cur /\ k.curf2 = r[1].curf /\ k.nexthour2 = r[1].nexthour, <<k, r[1]>>)
+            /\ Ck("C18", "UnlimitedNeverBlocked", k.limit < 0 => k.accepted, <<k>>)
+    \* a request refused by this control is refused (the request log agrees)
+    /\ (e.ev = "cb" => \A i \in DOMAIN e.txcalls :
+          ~e.txcalls[i].accepted =>
+             Ck("C18", "RefusalHonoured",
+                \E j \in DOMAIN e.reqs : e.reqs[j].o = e.txcalls[i].o /\ e.reqs[j].kind = e.txcalls[i].kind /\ e.reqs[j].r = "REFUSE",
+                <<e.txcalls[i].kind, e.txcalls[i].o>>))
+
 -----------------------------------------------------------------------------
 StepOK(pre, e) ==
     /\ ("R" \in Props => (Conforms(pre, e) /\ (e.ev = "cb" => ReqVerdicts(pre, e.reqs, 1))))
@@ -511,6 +585,8 @@ StepOK(pre, e) ==
     /\ ("C08" \in Props => P_C08(pre, e))
     /\ ("C20" \in Props => P_C20(pre, e))
     /\ ("C01" \in Props => P_C01(pre, e))
+    /\ ("C02" \in Props => P_C02(pre, e))
+    /\ ("C18" \in Props => P_C18(pre, e))
     /\ ("C07" \in Props => P_C07T(pre, e))
     /\ ("C03" \in Props => P_C03(pre, e))
     /\ ("C04" \in Props => P_C04(pre, e))
